@@ -11,6 +11,8 @@ WATCH = ["AfterEndClean", "OneStop", "EndIdempotent", "OthersUntouched"]
 REQUIRED = {
     "dhcp.Server": ["L:release", "L:decline", "L:expiry", "E:release", "E:decline", "E:expiry", "O:release", "O:decline", "O:expiry",
                     "S:release", "S:decline", "S:expiry", "A:release", "A:decline", "A:expiry"],
+    "dhcp.Server+HTTPAllocator": ["L:release", "L:decline", "L:expiry", "E:release", "E:decline", "E:expiry", "O:release", "O:decline", "O:expiry",
+                                  "S:release", "S:decline", "S:expiry", "A:release", "A:decline", "A:expiry"],
     "pppoe.Server": ["L:padt", "L:lcpterm", "L:authfail", "L:idle", "E:padt", "E:lcpterm", "E:authfail", "E:idle", "O:padt", "O:lcpterm", "O:authfail", "O:idle",
                      "A:padt", "A:lcpterm", "A:authfail", "A:idle"],
     "pppoe.SessionTeardown": ["L:padt", "L:admin", "L:idle", "L:radiusdisc", "L:shutdown", "E:padt", "E:admin", "E:idle", "E:radiusdisc", "E:shutdown",
@@ -26,6 +28,13 @@ ASSUMPTIONS = [
     "dhcp: dhcp.Server wired as cmd/bng does (nat.Manager and qos.Manager without loaded eBPF programs - their bookkeeping is the observation; radius.PolicyManager WITH the default policies loaded: cmd/bng never "
     "loads them, so in production no QoS policy is ever applied and the QoS part would be vacuous); ebpf.Loader with four real kernel hash maps (subscriber_pools, vlan_subscriber_pools, circuit_id_map, "
     "circuit_id_subscribers; key/value sizes of the Go types the loader marshals) injected by reflection; needs CAP_BPF, exit 2 otherwise. The DHCP server never sets a lease's S/C tags, so VLAN-pair cache entries never exist (observed, always empty)",
+    "dhcp renewals: a client renews (REQUEST with ciaddr) only while it believes it is bound (ACKed, and since then it neither released / declined nor let its lease run out unrenewed); a relayed client's "
+    "renewal passes a relay agent that inserts an option 82 with only a remote-id (no circuit-id sub-option), a direct client's renewal carries no option 82; the renewals inside an expiry event carry the full option 82",
+    "dhcp.Server+HTTPAllocator (systems dhcp-nexus/...): the same wiring plus SetHTTPAllocator (walled-garden / Nexus mode, as cmd/bng with --nexus-url: HealthCheck, GetPoolInfo, SetHTTPAllocator) with the real "
+    "nexus.HTTPAllocator over real TCP against a process-wide httptest fake Nexus outside the bubbles that knows the pool and answers 404 to every allocation lookup (nobody is activated), so every subscriber is served "
+    "from the local pool; every response closes its connection (an idle kept-alive connection's read loop is not durably blocked and would stall synctest.Wait); activated subscribers (address from Nexus) are not modelled. "
+    "In this mode the clients follow the RFC 2131 state machine: a client that released / declined / let its lease run out forgets its selected offer (the mode acknowledges ANY address a lease-less client REQUESTs, "
+    "see the finding recorded in the family report; without the allocator the stale offer stays in the alphabet and is refused by requestedIPBelongsToClient)",
     "a session is 'live' from the first acknowledged establishment step (DHCPACK, PADS, PAP-Ack, CreateSession returning nil) - a DHCP client that only has an OFFER is not a session (end events are still applied to it and must not disturb others)",
     "NAT block and QoS policy are attributed to a session through the address the pool / table showed for it while it was live",
     "'its address is back in the pool' = neither the pool/allocator nor the lease/session table (incl. its MAC / IP / circuit-id indexes) still binds the address to the session; a declined address may stay quarantined; "
